@@ -99,9 +99,8 @@ Definition finish (k : ckind) (response : list Z) : cres :=
 
 Section Client.
   Variable miu : Z.                        (* socket.getsockopt(SO_SNDMIU) *)
-  Variable complete : list Z -> bool.      (* list(ndef.message_decoder(octets, 'strict', {})) does not raise *)
-  Variable cpl_crash : list Z -> bool.     (* ... raises something that is not ndef.DecodeError (ndeflib:
-                                              UnicodeDecodeError for a non-ASCII record type) *)
+  Variable complete : list Z -> bool.      (* list(ndef.message_decoder(octets, 'strict', {})) raises neither
+                                              ndef.DecodeError nor ValueError (both mean: incomplete) *)
 
   (* send_request(socket, request, send_miu) up to its first wait *)
   Definition send_request (k : ckind) (acc : Z) (req : list Z) : cst * list (list Z) :=
@@ -150,9 +149,7 @@ Section Client.
     | CMoreResp k _ _, _ => (CDone (resp_none k), [])
     | CHoRecv octets, IMsg m =>
         let octets' := octets ++ m in
-        if complete octets' then (CDone (ROctets octets'), [])
-        else if cpl_crash octets' then (CDone (RCrash ValueErr), [])
-        else (CHoRecv octets', [])
+        if complete octets' then (CDone (ROctets octets'), []) else (CHoRecv octets', [])
     | CHoRecv _, _ => (CDone RNone, [])        (* poll returned False: the function falls off its end *)
     | CDone _, _ => (st, [])
     | CIdle, _ => (st, [])
@@ -209,10 +206,9 @@ Section Server.
   Variable app_put : A -> list Z -> A * Z.
   Variable app_get : A -> list Z -> A * getres.
   Variable app_ho  : A -> list Z -> A * list Z.        (* returns the encoded select message *)
-  Variable decodable : list Z -> bool.   (* list(ndef.message_decoder(octets, known_types={})) does not raise *)
-  Variable dec_crash : list Z -> bool.   (* ... raises something that is not ndef.DecodeError *)
+  Variable decodable : list Z -> bool.   (* list(ndef.message_decoder(octets, known_types={})) raises neither
+                                            ndef.DecodeError nor ValueError (both give BadRequest) *)
   Variable complete : list Z -> bool.    (* ... (request, 'strict', {}) does not raise *)
-  Variable cpl_crash : list Z -> bool.   (* ... raises something that is not ndef.DecodeError *)
   Variable is_hr : list Z -> bool.       (* 'relax' decoding succeeds and records[0].type == 'urn:nfc:wkt:Hr' *)
   Variable max_acc : Z.                  (* self.max_acceptable_length *)
   Variable miu : Z.                      (* client_socket.getsockopt(SO_SNDMIU) *)
@@ -240,7 +236,6 @@ Section Server.
                           | GEncodeError => (192, [])
                           end in
                 (fst ar, log ++ [CallGet octets], mk_response (fst cd) (snd cd))
-              else if dec_crash octets then (a, log, Crash ValueErr)
               else (a, log, mk_response 194 [])
           | _ => (a, log, Crash IndexErr)
           end
@@ -248,7 +243,6 @@ Section Server.
           if decodable rest6 then
             let ar := app_put a rest6 in
             (fst ar, log ++ [CallPut rest6], mk_response (snd ar) [])
-          else if dec_crash rest6 then (a, log, Crash ValueErr)
           else (a, log, mk_response 194 [])
         else (a, log, mk_response 194 [])
     | _ => (a, log, Crash IndexErr)
@@ -305,7 +299,7 @@ Section Server.
   (* ---- HandoverServer.serve (with the repair fixes/c06-handover-server-request-reset.diff:
      after the response has been sent the request buffer starts empty again).
      [reset = false] is the code before the repair: the buffer keeps the old request. *)
-  Inductive hst := HAccum (request : list Z) | HClosed | HCrashed (c : crash).
+  Inductive hst := HAccum (request : list Z) | HClosed.
   Record hsrv := { hv_st : hst; hv_app : A; hv_log : list call }.
 
   Definition ho_process (a : A) (log : list call) (octets : list Z) : A * list call * list Z :=
@@ -324,13 +318,10 @@ Section Server.
               ({| hv_st := HAccum (if reset then [] else request'); hv_app := a; hv_log := log |},
                chunks miu response)
           end
-        else if cpl_crash request' then
-          ({| hv_st := HCrashed ValueErr; hv_app := hv_app s; hv_log := hv_log s |}, [])
         else ({| hv_st := HAccum request'; hv_app := hv_app s; hv_log := hv_log s |}, [])
     | HAccum _, IClosed => ({| hv_st := HClosed; hv_app := hv_app s; hv_log := hv_log s |}, [])
     | HAccum _, ITimeout => (s, [])
     | HClosed, _ => (s, [])
-    | HCrashed _, _ => (s, [])
     end.
 End Server.
 
@@ -452,7 +443,7 @@ Section Systems.
   Variable app_put : A -> list Z -> A * Z.
   Variable app_get : A -> list Z -> A * getres.
   Variable app_ho  : A -> list Z -> A * list Z.
-  Variables decodable dec_crash complete cpl_crash is_hr : list Z -> bool.
+  Variables decodable complete is_hr : list Z -> bool.
   Variable C : chan_ops.
   Variable miu_cs : Z.     (* send MIU of the client socket = channel limit client->server *)
   Variable miu_sc : Z.     (* send MIU of the server socket = channel limit server->client *)
@@ -460,16 +451,16 @@ Section Systems.
 
   (* the finally-clause: client_socket.close() sends a disconnect unless the peer closed first *)
   Definition snep_sys_react (s : srv A) (i : input) : srv A * list input :=
-    let r := snep_react A app_put app_get decodable dec_crash max_acc miu_sc s i in
+    let r := snep_react A app_put app_get decodable max_acc miu_sc s i in
     (fst r, map IMsg (snd r) ++
             (if snep_server_stopped (fst r) && negb (snep_server_stopped s) && negb (is_closed_in i)
              then [IClosed] else [])).
   Definition ho_sys_react (reset : bool) (s : hsrv A) (i : input) : hsrv A * list input :=
-    let r := ho_react A app_ho complete cpl_crash is_hr miu_sc reset s i in
+    let r := ho_react A app_ho complete is_hr miu_sc reset s i in
     (fst r, map IMsg (snd r) ++
             (if ho_server_stopped (fst r) && negb (ho_server_stopped s) && negb (is_closed_in i)
              then [IClosed] else [])).
-  Definition cl_react := csess_react miu_cs complete cpl_crash.
+  Definition cl_react := csess_react miu_cs complete.
 
   Definition snep_init (a : A) (ops : list cop) :=
     let so := start_ops miu_cs ops [] in
@@ -497,48 +488,48 @@ Definition sapp_ho (a : list answer) (_ : list Z) : list answer * list Z :=
 Definition mem (table : list (list Z)) (l : list Z) : bool := existsb (list_eqb l) table.
 
 (* one side against a script of arrivals (correspondence of the single functions) *)
-Fixpoint client_script (cpl cplx : list (list Z)) (st : cst) (ins : list input)
+Fixpoint client_script (cpl : list (list Z)) (st : cst) (ins : list input)
   : list (input * list (list Z)) * cst :=
   match ins with
   | [] => ([], st)
   | i :: r =>
       match st with
       | CDone _ | CIdle => ([], st)
-      | _ => let so := client_react (mem cpl) (mem cplx) st i in
-             let rest := client_script cpl cplx (fst so) r in
+      | _ => let so := client_react (mem cpl) st i in
+             let rest := client_script cpl (fst so) r in
              ((i, snd so) :: fst rest, snd rest)
       end
   end.
 
-Fixpoint snep_server_script (dec decx : list (list Z)) (max_acc miu : Z) (s : srv (list answer)) (ins : list input)
+Fixpoint snep_server_script (dec : list (list Z)) (max_acc miu : Z) (s : srv (list answer)) (ins : list input)
   : list (input * list (list Z)) * srv (list answer) :=
   match ins with
   | [] => ([], s)
   | i :: r =>
       if snep_server_stopped s then ([], s) else
-      let so := snep_react _ sapp_put sapp_get (mem dec) (mem decx) max_acc miu s i in
-      let rest := snep_server_script dec decx max_acc miu (fst so) r in
+      let so := snep_react _ sapp_put sapp_get (mem dec) max_acc miu s i in
+      let rest := snep_server_script dec max_acc miu (fst so) r in
       ((i, snd so) :: fst rest, snd rest)
   end.
-Fixpoint ho_server_script (cpl cplx hr : list (list Z)) (miu : Z) (reset : bool) (s : hsrv (list answer)) (ins : list input)
+Fixpoint ho_server_script (cpl hr : list (list Z)) (miu : Z) (reset : bool) (s : hsrv (list answer)) (ins : list input)
   : list (input * list (list Z)) * hsrv (list answer) :=
   match ins with
   | [] => ([], s)
   | i :: r =>
       if ho_server_stopped s then ([], s) else
-      let so := ho_react _ sapp_ho (mem cpl) (mem cplx) (mem hr) miu reset s i in
-      let rest := ho_server_script cpl cplx hr miu reset (fst so) r in
+      let so := ho_react _ sapp_ho (mem cpl) (mem hr) miu reset s i in
+      let rest := ho_server_script cpl hr miu reset (fst so) r in
       ((i, snd so) :: fst rest, snd rest)
   end.
 
 (* both sides together over the list channel, client-first schedule, with the delivery trace *)
-Definition snep_exec (dec decx : list (list Z)) (miu_cs miu_sc max_acc : Z) (app : list answer)
+Definition snep_exec (dec : list (list Z)) (miu_cs miu_sc max_acc : Z) (app : list answer)
   (ops : list cop) (fuel : nat) :=
-  run_cp_tr csess (srv (list answer)) (cl_react (mem []) (mem []) miu_cs)
-    (snep_sys_react _ sapp_put sapp_get (mem dec) (mem decx) miu_sc max_acc) list_chan miu_cs miu_sc fuel
+  run_cp_tr csess (srv (list answer)) (cl_react (mem []) miu_cs)
+    (snep_sys_react _ sapp_put sapp_get (mem dec) miu_sc max_acc) list_chan miu_cs miu_sc fuel
     (snep_init _ list_chan miu_cs app ops) [].
-Definition ho_exec (cpl cplx hr : list (list Z)) (miu_cs miu_sc : Z) (reset : bool) (app : list answer)
+Definition ho_exec (cpl hr : list (list Z)) (miu_cs miu_sc : Z) (reset : bool) (app : list answer)
   (ops : list cop) (fuel : nat) :=
-  run_cp_tr csess (hsrv (list answer)) (cl_react (mem cpl) (mem cplx) miu_cs)
-    (ho_sys_react _ sapp_ho (mem cpl) (mem cplx) (mem hr) miu_sc reset) list_chan miu_cs miu_sc fuel
+  run_cp_tr csess (hsrv (list answer)) (cl_react (mem cpl) miu_cs)
+    (ho_sys_react _ sapp_ho (mem cpl) (mem hr) miu_sc reset) list_chan miu_cs miu_sc fuel
     (ho_init _ list_chan miu_cs app ops) [].
